@@ -45,7 +45,8 @@ def Q(m, e):
 # --------------------------------------------------------------------------
 # GEN families (constants of StrMathGen)
 
-FAMILIES = ["sub", "byte", "unary", "char", "findp", "findl", "fmtd", "fmtx", "fmtc", "fmts", "math1", "math2", "maxmin"]
+FAMILIES = ["sub", "byte", "unary", "char", "findp", "findl", "fmtd", "fmtx", "fmtc", "fmts", "math1", "math2", "maxmin",
+            "fmtgrid", "ldexpw"]
 
 
 def gen_runs(tier):
@@ -63,7 +64,7 @@ def gen_runs(tier):
         "G2M": "12" if th else "8", "G2Neg": "3", "G2Hi": "2" if th else "1",
     }
     split = [["sub", "byte"], ["findp", "findl", "unary"],
-             ["char", "fmtd", "fmtx", "fmtc", "fmts", "math1", "math2", "maxmin"]] if th else [FAMILIES]
+             ["char", "fmtd", "fmtx", "fmtc", "fmts", "math1", "math2", "maxmin"], ["fmtgrid", "ldexpw"]] if th else [FAMILIES]
     out = []
     for fams in split:
         c = dict(consts)
@@ -229,9 +230,17 @@ def case_key(f, args, exp, obs):
         a = args[1]
         c = d["conv"]
         fl = d["flags"]
-        if a[0] == "s" and c in "dixXoc":
+        if a[0] == "s" and c in "diuxXoceEfgG":
             return "C15:format:numeric-directive:string-argument-not-converted"
-        if a[0] not in ("n", "q", "s") and c in "dixXoc":
+        if c in "eEfgG" and a[0] == "inf":
+            return "C15:format:float-conversion:infinity"
+        if c in "eEfgG" and a[0] in ("n", "q"):
+            if c in "gG" and d["prec"] is None and not fl:
+                return "C15:format:%g:default-precision"
+            return "C15:format:%%%s:flags=%s,w=%d,p=%d" % (c, "".join(sorted(fl)), bool(d["width"]), d["prec"] is not None)
+        if c == "u" and a[0] in ("n", "q"):
+            return "C15:format:%u"
+        if a[0] not in ("n", "q", "s") and c in "diuxXoceEfgG":
             return "C15:format:numeric-directive:non-number-argument-not-an-error"
         if a[0] not in ("n", "q", "s"):
             return "C15:format:%%%s:%s-argument" % (c, a[0])
@@ -260,6 +269,10 @@ def case_key(f, args, exp, obs):
                 return "C15:format:%+.0d:zero-loses-sign"
             return "C15:format:%%%s:flags=%s,w=%d,p=%d" % (c, "".join(sorted(fl)), bool(d["width"]), d["prec"] is not None)
         return "C15:format:%%%s" % c
+    if f == "ldexp" and len(args) > 1 and args[1][0] == "n" and abs(args[1][1]) > 1024:
+        return "C15:ldexp:exponent-beyond-1024"
+    if f in ("ldexp", "frexp") and args and args[0][0] == "q" and args[0][2] < -1022:
+        return "C15:%s:subnormal-argument" % f
     if f == "modf" and args and args[0][0] == "inf":
         return "C15:modf:infinite-argument"
     if f == "pow" and len(args) > 1 and args[1][0] == "q" and args[1][2] == -1 and abs(args[1][1]) > 1:
@@ -403,6 +416,21 @@ def listed_calls():
         # width / precision with two digits
         F("%12d", N(-5)), F("%-12d|", N(5)), F("%.10d", N(5)), F("%12.10d", N(-5)), F("%20s", S("ab")),
         F("%-20s|", S("ab")), F("%.10s", S("abc")), F("%99d", N(1)), F("%.99d", N(1)), F("%10.4x", N(255)),
+        # floating conversions: blank / plus / zero flags, %g styles, infinities; %u %q
+        F("% f", Q(3, -1)), F("% .2f", N(0)), F("% e", Q(25, -1)), F("% E", Q(25, -1)), F("% 10.3f", Q(13, -2)),
+        F("%- 9.1f|", Q(5, -1)), F("% 08.2f", Q(7, -1)), F("% f", Q(-3, -1)), F("%+f", Q(3, -1)), F("%08.2f", Q(7, -1)),
+        F("% g", N(100000)), F("% G", N(1000000)), F("%g", Q(2469135, -1)), F("%g", N(100000)), F("%g", N(1000000)),
+        F("%g", Q(1, -13)), F("%g", Q(1, -14)), F("%.3g", Q(1999, -1)), F("%#.3g", N(1)), F("%.0e", Q(5, -1)), F("%.0e", Q(7, -1)),
+        F("%.1f", Q(1, -2)), F("%.1f", Q(3, -2)), F("%.0f", Q(1, -1)), F("%.0f", Q(3, -1)), F("%5.0f|", Q(5, -1)),
+        F("%f", ["inf", 1]), F("%e", ["inf", -1]), F("%+G", ["inf", 1]), F("%5.1f|", ["inf", 1]), F("%-6g|", ["inf", 1]), F("%06.1f", ["inf", -1]),
+        F("%f", S("10")), F("%.1e", S("-7")), F("%g", S("x")), F("%f"), F("%e", NIL), F("%f %d", Q(1, -1), N(2)),
+        F("%u", N(42)), F("%05u", N(42)), F("%-5u|", N(7)), F("%.3u", N(7)), F("%q", S("a\"b\\c\nd\re\0f")), F("%q", N(7)), F("%q"),
+        # ldexp / frexp far outside +-1024 and in the subnormal range
+        ["ldexp", [N(1), N(-1050)]], ["ldexp", [Q(1, -1), N(-1073)]], ["ldexp", [N(1), N(-1075)]], ["ldexp", [Q(1, -1074), N(1100)]],
+        ["ldexp", [Q(1, -1074), N(2097)]], ["ldexp", [Q(1, 1023), N(-2097)]], ["ldexp", [N(1), N(1024)]], ["ldexp", [N(1), N(5000)]],
+        ["ldexp", [N(1), N(-5000)]], ["ldexp", [Q(1, -1), N(1024)]], ["ldexp", [N(1), N(-1022)]], ["ldexp", [N(3), N(-1075)]],
+        ["ldexp", [N(3), N(-1076)]], ["ldexp", [N(-1), N(-1074)]], ["frexp", [Q(1, -1074)]], ["frexp", [Q(3, -1060)]], ["frexp", [Q(1, 1023)]],
+        ["frexp", [Q(-1, -1074)]], ["ldexp", [Q(1, -1), N(-1021)]], ["ldexp", [Q(3, -2), N(-1058)]],
         # the format string itself given as a number
         ["format", [N(12)]], ["format", [N(12), N(1)]], ["format", []], ["format", [NIL]],
         # subject conversions
@@ -493,8 +521,9 @@ def rand_format(rng):
             fmt.append(b)
         if rng.random() < 0.15:
             fmt += [37, 37]
-        c = rng.choice("ddixXocss")
-        allowed = {"d": "-0+ ", "i": "-0+ ", "x": "-0#+ ", "X": "-0#+ ", "o": "-0#+ ", "c": "-", "s": "-"}[c]
+        c = rng.choice("ddixXocssueEfgGfg")
+        allowed = {"d": "-0+ ", "i": "-0+ ", "x": "-0#+ ", "X": "-0#+ ", "o": "-0#+ ", "c": "-", "s": "-", "u": "-0+ ",
+                   "e": "-0#+ ", "E": "-0#+ ", "f": "-0#+ ", "g": "-0#+ ", "G": "-0#+ "}[c]
         fl = [ch for ch in allowed if rng.random() < 0.3]
         rng.shuffle(fl)
         w = rng.choice(["", "", "1", "2", "4", "7", "12"])
@@ -502,7 +531,11 @@ def rand_format(rng):
         fmt += [37] + [ord(ch) for ch in "".join(fl) + w + p + c]
         if c in "di":
             args.append(rng.choice([N(rng.randint(-100000, 100000)), N(0), N(rng.randint(-9, 9)), Q(rng.randint(-99, 99), -2)]))
-        elif c in "xXo":
+        elif c in "eEfgG":
+            args.append(rng.choice([N(rng.randint(-100000, 100000)), N(0), Q(rng.randint(-4000, 4000), -rng.randint(1, 12)),
+                                    Q(rng.randint(1, 999), rng.randint(0, 50)), Q(rng.randint(-99, 99), -1),
+                                    rng.choice([["inf", 1], ["inf", -1]])]))
+        elif c in "xXou":
             args.append(rng.choice([N(rng.randint(0, 1000000)), N(0), N(rng.randint(0, 20)), Q(rng.randint(1, 99), -1)]))
         elif c == "c":
             args.append(N(rng.randint(1, 255)))
@@ -556,6 +589,9 @@ def rand_call(rng):
         x = rand_dyadic(rng)
         if f == "frexp" and x[0] == "inf":
             x = N(3)
+        if f == "frexp" and rng.random() < 0.5:
+            m = rng.choice([1, 3, 7, rng.randint(1, 1000000)]) * rng.choice([1, -1])
+            x = Q(m, rng.randint(-1074, 1023 - m.bit_length()))
         return [f, [x]]
     if f == "sqrt":
         r = rng.randint(0, 120)
@@ -563,6 +599,13 @@ def rand_call(rng):
     if f == "fmod":
         return [f, [rand_dyadic(rng), rand_dyadic(rng)]]
     if f == "ldexp":
+        if rng.random() < 0.5:
+            # the whole exponent range: x = m * 2^e representable, shift far outside +-1024
+            m = rng.choice([1, 1, 3, 5, 255, rng.randint(1, 1000000)]) * rng.choice([1, -1])
+            e = rng.randint(-1074, 1023 - m.bit_length())
+            k = rng.choice([rng.randint(-2200, -1020), rng.randint(1020, 2200), -1074 - e, -1075 - e, -1073 - e - m.bit_length(),
+                            1023 - e - m.bit_length() + 1, rng.randint(-60, 60)])
+            return [f, [Q(m, e), N(k)]]
         x = rand_dyadic(rng)
         return [f, [x, N(rng.randint(-30, 30))]]
     if f == "pow":
@@ -591,13 +634,13 @@ def random_range_calls(rng, reps):
 
 # --------------------------------------------------------------------------
 
-def _register(verd, f, args, exp, obs, msg, direction, extra=None):
+def _register(verd, f, args, exp, obs, msg, direction, extra=None, key=None):
     rep = {"f": f, "args": args, "expected": exp, "observed": obs, "direction": direction, "lua": lua_call(f, args)}
     if f == "random":
         rep["repeat"] = 2000
     if extra:
         rep.update(extra)
-    verd.candidate(case_key(f, args, exp, obs), "%s returned %s, Lua 5.1 defines %s%s" % (
+    verd.candidate(key or case_key(f, args, exp, obs), "%s returned %s, Lua 5.1 defines %s%s" % (
         lua_call(f, args), show(obs), show(exp) if exp[0] != "random" else "an integer in [%d, %d]" % (exp[1], exp[2]),
         (" [" + msg.split("\n")[0].strip()[:80] + "]") if msg else ""), rep)
 
@@ -616,6 +659,7 @@ def record_candidates(cands, verd, stats):
     verdicts = judge(recs, "confirm", stats, batch=400)
     nconf = 0
     multi = []
+    flagged = []
     seen = set()
     for rec in recs:
         for k, exp in verdicts[rec["id"]]["bad"]:
@@ -629,6 +673,9 @@ def record_candidates(cands, verd, stats):
                 if len(ds) > 1 and len(args) - 1 == len(ds):
                     multi.append((args, exp, obs, ds, direction[ck]))
                     continue
+            if f == "format" and ":flags=" in case_key(f, args, exp, obs) and ":flags=," not in case_key(f, args, exp, obs):
+                flagged.append((args, exp, obs, direction[ck]))
+                continue
             _register(verd, f, args, exp, obs, msg, direction[ck])
     # math.random draws differ between executions: a range violation seen once counts
     for f, args, exp, obs, d in cands:
@@ -654,11 +701,47 @@ def record_candidates(cands, verd, stats):
                 r = subs[json.dumps(["format", a])]
                 if r is not None:
                     hit = True
-                    _register(verd, "format", a, r[0], r[1], "", d, {"found_in": lua_call("format", args)})
+                    k0 = case_key("format", a, r[0], r[1])
+                    if ":flags=" in k0 and ":flags=," not in k0:
+                        flagged.append((a, r[0], r[1], d))
+                    else:
+                        _register(verd, "format", a, r[0], r[1], "", d, {"found_in": lua_call("format", args)})
             if not hit:
                 verd.candidate("C15:format:composition-of-correct-directives", "%s returned %s, Lua 5.1 defines %s" % (
                     lua_call("format", args), show(obs), show(exp)),
                     {"f": "format", "args": args, "expected": exp, "observed": obs, "direction": d, "lua": lua_call("format", args)})
+    if flagged:
+        # a rejected directive with flags: which single flag (or none) is already rejected alone?
+        def variant(args, flags, width=True):
+            d = parse_format(args[0][1])[0][0]
+            txt = "%" + flags + (d["width"] if width else "") + ("" if d["prec"] is None else "." + d["prec"]) + d["conv"]
+            return ["format", [S(txt), args[1]]]
+        subs = {}
+        for args, exp, obs, d in flagged:
+            fl = parse_format(args[0][1])[0][0]["flags"]
+            for v in [""] + sorted(set(fl)):
+                subs.setdefault(json.dumps(variant(args, v)), None)
+                subs.setdefault(json.dumps(variant(args, v, False)), None)
+        order = sorted(subs)
+        srecs = run_calls(chunks([json.loads(x) for x in order], 200), "flags")
+        sver = judge(srecs, "flags", stats, batch=400)
+        for rec in srecs:
+            for k, exp in sver[rec["id"]]["bad"]:
+                f, a, obs = rec["cs"][k - 1]
+                subs[json.dumps([f, a])] = (exp, obs)
+        for args, exp, obs, d in flagged:
+            dd = parse_format(args[0][1])[0][0]
+            key = None
+            if subs[json.dumps(variant(args, ""))] is not None:
+                key = "C15:format:%%%s:no-flags,w=%d,p=%d" % (dd["conv"], bool(dd["width"]), dd["prec"] is not None)
+                if dd["conv"] in "gG" and dd["prec"] is None:
+                    key = "C15:format:%g:default-precision"
+            else:
+                for v in sorted(set(dd["flags"])):
+                    if subs[json.dumps(variant(args, v))] is not None or subs[json.dumps(variant(args, v, False))] is not None:
+                        key = "C15:format:%%%s:flag'%s'" % (dd["conv"], v)
+                        break
+            _register(verd, "format", args, exp, obs, "", d, key=key)
     return nconf
 
 
@@ -807,7 +890,7 @@ def _run(tier, t0, verd, stats, thorough, pool):
         "samples": samples, "mc_runs": mc,
         "known_findings_hit": sorted(verd.known_hit),
     }, time.time() - t0, len(verd.violations), assumptions=[
-        "TLC has no floating point: exp, log, log10, deg, rad, trigonometric/hyperbolic functions, %e %E %f %g, inexact pow/sqrt results, signed zeros, NaN arguments, subnormals and values beyond m*2^e with |m| <= 2^14 are not decided",
+        "TLC has no floating point: exp, log, log10, deg, rad, trigonometric/hyperbolic functions, inexact pow/sqrt results, signed zeros, NaN arguments and numbers that are not m*2^e with a small m are not decided; %e %E %f %g %G are decided for dyadic rationals (|m| < 2^30, -16 <= e <= 64) and infinities on the exact decimal expansion with round-half-even, ldexp/frexp for |m| <= 2^20 over the whole exponent range incl. subnormal rounding",
         "format: combinations ISO C leaves undefined (0/# with %s %c, # with %d, precision with %c), negative arguments of %x %X %o, %c of 0, %s of strings with NUL or >= 100 bytes are not decided",
         "non-integral numbers as index / count arguments (platform dependent rounding in lua_number2integer) are not decided; error message texts are not compared",
         "find without the plain flag is decided only for patterns free of magic characters (pattern matching is property C14)",
